@@ -20,7 +20,7 @@ CONSTANTS MaxCols, MaxActions, Small, Emit,
 Fields == IF Small THEN {"e", "c(x)"} ELSE {"a", "b", "e", "c(x)"}      \* "e" is an enum field (supports modifiers);
                                                                          \* "c(x)": a field name with parentheses (sql style)
 Mods(f) == IF f = "e" THEN {"", "val", "name", "full"} ELSE {""}
-Ranges == IF Small THEN { <<3, 3>>, <<1, 6>> } ELSE { <<3, 3>>, <<0, 0>>, <<1, 6>>, <<2, 20>> }
+Ranges == IF Small THEN { <<3, 3>>, <<1, 6>>, <<1, 999>> } ELSE { <<3, 3>>, <<0, 0>>, <<1, 6>>, <<2, 20>>, <<1, 999>> }
 ColPool == { [f |-> f, mod |-> m, brk |-> b, min |-> r[1], max |-> r[2]] :
                  f \in Fields, m \in {"", "val", "name", "full"}, b \in BOOLEAN, r \in Ranges }
 Cols1 == IF Tiny THEN { [f |-> f, mod |-> "", brk |-> b, min |-> 1, max |-> 6] : f \in {"e", "c(x)"}, b \in BOOLEAN }
